@@ -6,6 +6,9 @@ def text_edit(old, new):
         return src.replace(old, new, 1) if old in src else None
     return edit
 MUTANTS = [
+    Mutant('reset_only_evid3', 'src/pharmpy/modeling/data.py', text_edit("        df['_FLAG'] = df[eventcol] >= 3", "        df['_FLAG'] = df[eventcol] == 3"), 'Q5', 'EVID 4 does not reset'),
+    Mutant('sort_unstable', 'src/pharmpy/modeling/data.py', text_edit("x.sort_values(by='_TIMES', kind='stable')", "x.sort_values(by='_TIMES')"), 'Q6', 'unstable sort'),
+    Mutant('typeix_keeps_dropped', 'src/pharmpy/model/datainfo.py', text_edit("cols = [col for col in self._obj if col.type == i and not col.drop]", "cols = [col for col in self._obj if col.type == i]"), 'Q7', 'dropped columns returned'),
     Mutant('literal_id_groupby', D, text_edit("df['DOSEID'] = df.groupby(idcol)['DOSEID'].cumsum()", "df['DOSEID'] = df.groupby('ID')['DOSEID'].cumsum()"), 'Q1', 'literal ID next to the resolved name'),
     Mutant('literal_id_frame_key', D, text_edit("{idcol: df[idcol], 'consec'", "{'ID': df[idcol], 'consec'"), 'Q1', 'frame built with key ID, grouped by resolved name'),
     Mutant('baseline_first', D, text_edit("baselines = model.dataset.groupby(idlab).nth(0).set_index(idlab)", "baselines = model.dataset.groupby(idlab).first()"), 'Q2', 'first non-missing instead of first record'),
